@@ -42,15 +42,23 @@ TRUSTED = [
     "Name/Velocity-is-set, the Avatar/coarse-location bookkeeping, the viewer object cache hit path (_lookup_cache_entry "
     "returns None; ProxySettings.ALLOW_AUTO_REQUEST_OBJECTS is switched off so no timers are started), session teardown "
     "(ClientWorldObjectManager.clear), region handle changes of a registered region, materials, ObjectPropertiesFamily",
-    "PROVED in Coq for all histories (Qed, closed): only the index clause of the statement (Idx: lookup by local id and by "
-    "full id agree and hold the same objects) under input_idx_ok (updates name a tracked region; no local id given to two "
-    "live objects), its preservation by the kill cascade, and cancellation of pending requests on region teardown. "
-    "NOT PROVED in Coq (checked by the correspondence + impl-level oracle only): children <-> parent-id agreement, "
-    "orphan bookkeeping / adoption, absence of raises (incl. that the kill fuel suffices under acyclicity), cancellation "
-    "of requests on kill and resolution on update, the reference-set refinement (abs (run h) = reference h)",
-    "the full statement is false of the faithful model outside three hypotheses; witnesses are proved in Props/C14.v "
-    "(C14_avatar_orphan_refuted, C14_regionless_update_refuted, C14_untracked_region_refuted) and replayed on the real code "
-    "(corpus/C14/findings.txt); proposed patches in /verif/.proposed/C14-*.diff",
+    "PROVED in Coq for all histories (Qed, closed; Props/C14.v, Obj/SceneGraphProofs.v, SceneGraphTree.v, SceneGraphKill.v): "
+    "(a) the index clause of the statement (Idx: lookup by local id and by full id agree and hold the same objects) and (b) the "
+    "children clause (c in children(p) <-> c tracked, parent_id c = lid p, same region, p tracked; duplicate-free) and the orphan "
+    "clause (c in orphans[p] <-> c tracked, parent_id c = p <> 0, p untracked; duplicate-free) as step-preserved invariants for "
+    "EVERY event kind: ObjectUpdate/ObjectUpdateCompressed (new object with orphan adoption, re-parenting, local-id change, region "
+    "move), terse, cached, properties, KillObject with its full cascade (descendants die, avatars survive as orphans, unknown id "
+    "with orphans), region teardown, track region, the three request kinds; hence after every history; (c) cancellation of "
+    "pending requests on region teardown.  Hypotheses (input_tree_ok): updates name a tracked region; no local id given to two "
+    "live objects; an object is not (re)indexed under a local id equal to the parent id it carries at that moment (1-cycle; for "
+    "a local-id change inside a region this is the OLD parent id - an extra hypothesis beyond the statement, a proof gap that the "
+    "correspondence exercises)",
+    "NOT PROVED in Coq (checked by the correspondence + impl-level oracle only): absence of raises (that no step returns None, "
+    "incl. that the kill fuel suffices under acyclicity), the Parent back-link, cancellation of requests on kill and resolution "
+    "on update, the reference-set refinement (abs (run h) = reference h)",
+    "the full statement is false of the faithful model outside the hypothesis 'updates name a tracked region': witness proved as "
+    "C14_untracked_region_refuted and recorded as known finding c14-untracked-region; the histories of the three repaired "
+    "defects (0de120a, 7f5640d, 4cb9d70) are kept in corpus/C14/findings.txt and must pass",
 ]
 
 REG = {1: 123, 2: 124, 3: 999}
